@@ -151,15 +151,75 @@ fn s_params(t: &mut Tape, ctx: &mut Ctx) -> Result<(), Failure> {
     Ok(())
 }
 
+/// One parameter name at two different types: no `parameters()` map can report both occurrences
+/// with their types, so such a template must be rejected.
+fn s_two_types(t: &mut Tape, ctx: &mut Ctx) -> Result<(), Failure> {
+    let g = gen::generate(t, GenCfg { params: true, ..GenCfg::small() });
+    if g.params.is_empty() {
+        ctx.label("no-parameter");
+        return Ok(());
+    }
+    let (name, _, ty) = g.params[t.index(g.params.len())].clone();
+    let same_layout = t.bool();
+    let other = if same_layout { cast_partner(t, &ty) } else { Some(valgen::gen_ty(t, &TyCfg::SMALL, 1)) };
+    let Some(other) = other else { return Ok(()) };
+    if other.same(&ty) {
+        return Ok(());
+    }
+    // add `let _: OTHER = param::NAME;` at the start or the end of main, or inside a helper function
+    let mut prog = g.prog.clone();
+    let stmt = Stmt::Let(Pat::Ignore, other.clone(), Expr::Param(name.clone()));
+    let n_fns = prog.items.iter().filter(|i| matches!(i, Item::Fn(_))).count();
+    let target = t.index(n_fns);
+    let at_end = t.bool();
+    let mut k = 0;
+    for it in prog.items.iter_mut() {
+        if let Item::Fn(f) = it {
+            if k == target {
+                if let Expr::Block(stmts, _) = &mut f.body {
+                    if at_end {
+                        stmts.push(stmt.clone());
+                    } else {
+                        stmts.insert(0, stmt.clone());
+                    }
+                }
+            }
+            k += 1;
+        }
+    }
+    let text = render::render(&prog, &Style::canonical());
+    ctx.evals(1);
+    if crate::tycheck::check_program(&prog).is_ok() {
+        return Err(Failure::internal("tycheck accepts a parameter at two types"));
+    }
+    match pipe::new_template(&text) {
+        Ok(Err(_)) => {
+            ctx.label("two-types:rejected");
+            ctx.nontrivial(digest(&[text.as_bytes()]));
+            ctx.sample(text.len() as u64, || json!({"parameter": name, "first_type": ty.to_string(), "second_type": other.to_string()}));
+            Ok(())
+        }
+        Ok(Ok(tmpl)) => {
+            let reported: Vec<String> = tmpl.parameters().iter().map(|(n, ty)| format!("{}: {ty}", n.as_inner())).collect();
+            Err(Failure::new(
+                "c12:parameter-at-two-types-accepted",
+                format!("`param::{name}` occurs at type {ty} and at type {other}; the template is accepted and parameters() reports {reported:?}, which cannot list both occurrences with their types\n{}", truncate(&text, 2500)),
+            )
+            .with(json!({"program": text})))
+        }
+        Err(p) => Err(Failure::new(format!("panic:{}", crate::run::panic_site(&p)), format!("TemplateProgram::new panicked: {p}"))),
+    }
+}
+
 pub fn streams() -> Vec<Stream> {
-    vec![Stream { name: "params", kind: Kind::Tape { cases: |t: Tier| t.pick(8_000, 200_000), max_len: 420, f: s_params }, isolate: false }]
+    vec![Stream { name: "two-types", kind: Kind::Tape { cases: |t: Tier| t.pick(20_000, 400_000), max_len: 420, f: s_two_types }, isolate: false }, Stream { name: "params", kind: Kind::Tape { cases: |t: Tier| t.pick(8_000, 200_000), max_len: 420, f: s_params }, isolate: false }]
 }
 
 pub fn def() -> PropertyDef {
     PropertyDef {
         id: "C12",
         rule: "generated self-checking programs with 0..4 `param::NAME` occurrences of generated types in main and in functions (a name may occur several times at one type) x argument maps {exact, exact with other values, one missing, extra name, one value of a layout-equal other type / of an unrelated type} x witness assignments (all when <= 16, else sampled) x debug on/off. Oracle: parameters() equals the set of (name, type) the generator recorded; instantiate is Err iff a recorded parameter is missing or mistyped; when Ok, the verdict on every assignment equals the reference interpreter's AND equals that of the program text in which each param::NAME is replaced by the literal text of its argument (own value printer), both through the full pipeline. evaluations = instantiate decisions + executions. Non-trivial = >= 1 parameter of a composite type; distinct by digest.",
-        assumptions: &["a parameter used at two different types is not generated (documentation silent)"],
+        assumptions: &["stream two-types: a template that uses one parameter name at two different types must be rejected, because parameters() could not report both occurrences with their types"],
         streams,
         health: &[("params", "composite-parameter", 100), ("params", "instantiate:rejected-as-expected", 300)],
     }
